@@ -51,16 +51,29 @@ Unstyle(c) ==
 CtxChar(c, ctx) ==
   IF ctx = "accent" THEN
        (CASE c \in {95, 713, 772, 773, 818, 8722, 8254, 175} \cup (8208..8213) -> 175      \* macron family -> U+00AF
+          [] c \in {186, 8338, 8408, 8728, 176} -> 176
           [] c = 700 -> 96
           [] c \in {732, 8764, 126} -> 126
           [] c \in {710, 770, 94} -> 94
           [] c = 775 -> 729
           [] c = 776 -> 168
           [] OTHER -> c)
-  ELSE IF ctx = "sup" THEN (IF c \in {186, 8338, 8408, 8728, 176} THEN 176 ELSE c)       \* circle-like -> degree
+  ELSE IF ctx = "loose" THEN        \* every family merged, whatever the position (used where a token is looked at out of context)
+       (CASE c \in {95, 45, 713, 772, 773, 818, 8722, 8254, 175} \cup (8208..8213) -> 175
+          [] c = 700 -> 96
+          [] c \in {732, 8764, 126} -> 126
+          [] c \in {710, 770, 94} -> 94
+          [] c = 775 -> 729
+          [] c = 776 -> 168
+          [] c \in {186, 8338, 8408, 8728, 176} -> 176
+          [] c = 449 -> 8214
+          [] OTHER -> c)
+  \* circle-like -> degree: applied by the code to the scripts of msup/msubsup; whether an element still is an msup when that
+  \* happens depends on the empty-base repairs, so a lone ring/degree token is the same character in every position
   ELSE (CASE c \in {713, 772, 773, 175} -> 175
           [] c \in {732, 126, 8764} -> 8764
           [] c = 449 -> 8214
+          [] c \in {186, 8338, 8408, 8728, 176} -> 176
           [] OTHER -> c)
 
 NormChar(c0, ctx) ==
@@ -88,9 +101,10 @@ AttrOr(a, dflt) == IF a = <<-1>> THEN dflt ELSE a
 
 RECURSIVE Vis(_, _)
 ChildCtx(t, i, ctx) ==
-  IF t.tag \in {"mover", "munder", "munderover"} THEN (IF i >= 2 THEN "accent" ELSE "plain")
+  IF ctx = "loose" THEN "loose"
+  ELSE IF t.tag \in {"mover", "munder", "munderover"} THEN (IF i >= 2 THEN "accent" ELSE "plain")
   \* (a script element with an empty base is turned into mmultiscripts before the degree normalisation applies)
-  ELSE IF t.tag \in {"msup", "msubsup"} THEN (IF i >= 2 /\ Vis(t.kids[1], "plain") # <<>> THEN "sup" ELSE "plain")
+  ELSE IF t.tag \in {"msup", "msubsup"} THEN "plain"
   \* a wrapper whose only visible child is lifted into the wrapper's place (siblings that render nothing disappear)
   ELSE IF t.tag \in Wrappers /\ Cardinality({k \in 1..Len(t.kids) : Vis(t.kids[k], "plain") # <<>>}) <= 1 THEN ctx
   ELSE "plain"
@@ -199,12 +213,13 @@ TokensWithIds(t) ==        \* only tokens that are rendered: not below mphantom/
 RECURSIVE NodesWithId(_, _)
 NodesWithId(t, id) == (IF t.id = id THEN <<t>> ELSE <<>>) \o Flat([i \in 1..Len(t.kids) |-> NodesWithId(t.kids[i], id)])
 Contains(big, small) == \E k \in 0..(Len(big) - Len(small)) : SubSeq(big, k + 1, k + Len(small)) = small
-AuthorIdKept(out, tok) == \E n \in ToSet(NodesWithId(out, tok.id)) : Contains(Visible(n), Visible(tok))
+VisL(t) == Vis(t, "loose")             \* a token looked at on its own: position-dependent normalisations merged
+AuthorIdKept(out, tok) == \E n \in ToSet(NodesWithId(out, tok.id)) : Contains(VisL(n), VisL(tok))
 \* the clause is asserted for tokens whose text survives inside ONE token of the output; a token that canonicalization
 \* splits into several tokens (-2 -> - 2, NaCl -> Na Cl, x' -> x ') has no single "element carrying that token's text"
 RECURSIVE Leaves(_)
 Leaves(t) == IF IsLeaf(t) THEN <<t>> ELSE Flat([i \in 1..Len(t.kids) |-> Leaves(t.kids[i])])
 \* ... and a token merged with its neighbours (number blocks, primes, dots) survives only as part of a longer token,
 \* which keeps the id of one of the merged tokens; both cases are outside the asserted clause.
-SurvivesInOneToken(out, tok) == \E n \in ToSet(Leaves(out)) : Visible(n) = Visible(tok) /\ Len(n.cp) = Len(tok.cp)
+SurvivesInOneToken(out, tok) == \E n \in ToSet(Leaves(out)) : VisL(n) = VisL(tok) /\ Len(n.cp) = Len(tok.cp)
 =============================================================================
